@@ -179,15 +179,15 @@ class Ctx:
             return z3.unknown, None
         return r, (s.model() if (want_model and r == z3.sat) else None)
 
-    def query_assumptions_only(self, *extra, timeout_ms=None):
-        """Decide extra under the input/defining assumptions alone (branch decisions of the path left out): unsat is
+    def query_assumptions_only(self, *extra, timeout_ms=None, pc_prefix=0):
+        """Decide extra under the input/defining assumptions and the first pc_prefix branch decisions of the path (the later ones left out): unsat is
         stronger than needed, sat is a candidate for the replay.  Polynomial engine (z3cli)."""
         keep = self.timeout_ms
         if timeout_ms:
             self.timeout_ms = timeout_ms
         t = time.time()
         try:
-            return self._cli(extra, want_model=True, base=list(self.assumptions))
+            return self._cli(extra, want_model=True, base=list(self.assumptions) + list(self.pc[:pc_prefix]))
         finally:
             self.timeout_ms = keep
             self.n_checks += 1
